@@ -5,6 +5,8 @@ use flate2::read::DeflateDecoder;
 use crate::error::Result;
 use crate::Error;
 
+const MAX_PREALLOCATED_DECOMPRESSED_BYTES: usize = 64 * 1024;
+
 pub trait BinaryInput {
     fn read_u8(&mut self) -> Result<u8>;
     fn read_bytes(&mut self, count: usize) -> Result<&[u8]>;
@@ -104,7 +106,9 @@ pub trait BinaryInput {
         let compressed_len = self.read_var_u32()? as usize;
         let compressed = self.read_bytes(compressed_len)?;
         let mut deflater = DeflateDecoder::new(compressed);
-        let mut result = Vec::with_capacity(uncompressed_len);
+        // The stored length is untrusted: use it as a capacity hint only up to a fixed bound and let
+        // read_to_end grow the buffer to what the data really decompresses to.
+        let mut result = Vec::with_capacity(uncompressed_len.min(MAX_PREALLOCATED_DECOMPRESSED_BYTES));
         deflater
             .read_to_end(&mut result)
             .map_err(|err| Error::DecompressionFailure(format!("{err}")))?;
